@@ -460,12 +460,18 @@ def practice_groups(rng, per_prog):
         end_at = len(lines)
         movable, slots = [], []
         prev_open = False
+        await_brace = False           # a '.repeat n' whose '{' stands on a later line
         for k, ln in enumerate(lines):
             code = strip_code(ln)
             if re.search(r"(?i)(^|\s)\.end\b", code) and not re.search(r"(?i)\.end[a-z]", code):
                 end_at = k
                 break
-            if depth == 0 and not prev_open:
+            if await_brace and "{" in code:
+                await_brace = False
+                depth += code.count("{") - code.count("}")
+                depth = max(depth, 0)
+                continue
+            if depth == 0 and not prev_open and not await_brace and not code.lstrip().startswith("{"):
                 slots.append(k)       # inserting before line k is a top-level position
                 m = ASSIGN_RE.match(ln)
                 if m and m.group(2).strip():
@@ -475,6 +481,8 @@ def practice_groups(rng, per_prog):
                         movable.append(k)
             depth += code.count("{") - code.count("}")
             depth = max(depth, 0)
+            if re.search(r"(?i)\.repeat\b", code) and "{" not in code:
+                await_brace = True
             c2 = code.rstrip()
             prev_open = bool(c2) and c2[-1] in ",+-*/&|!_^(<="
         if not movable or len(slots) < 2:
